@@ -162,6 +162,26 @@ CHECKS = {
         text="For every generated list: reduced_exprs has the input length; replacement symbols are fresh, distinct Symbols; replacement i mentions only input symbols and earlier replacements; substituting back last-to-first gives expressions eq to the inputs (or eq after expansion when the input held a non-distributed -1*(sum)); and the reduced expressions evaluated with the replacements bound in order have the input's value at two complex points. Exploration.",
         note="KF-C37-01 (user functions named add/mul/pow are rebuilt as Add/Mul/Pow) is a listed known finding.",
         variants=["main"]),
+    "C14": dict(
+        engine="hy", technique="property-based testing (stateful): histories of init/call on LLVM visitors of all three float types over the full LLVMVisitor node list; every output against the mpmath value (tolerance scaled to the type's epsilon), agreement across optimisation levels 0-3 and symbolic CSE on/off, bit-identical dumps/loads round trip, re-used visitor versus fresh visitor",
+        text="For each generated history and each of double/float/long double: every output of the compiled function must equal the mpmath value within 64*eps(type) times a first-order error amplification; four (cse, opt_level) configurations are compiled per step and must agree to 8 ulp; a function saved with dumps and reloaded must be bit-identical; a re-used visitor must behave like a fresh one. Exploration; a coverage gate requires every node type x float type.",
+        note="Runs in the opt build (g++ -O1, LLVM 14, MPFR, MPC through a declaration-only header shim).",
+        variants=["opt"]),
+    "C45": dict(
+        engine="hy", technique="property-based testing: symbol-free trees over every node type of eval_mpfr / eval_mpc at 54-2000 bits against mpmath at bits+64; single arithmetic operations on RealMPFR/ComplexMPC numbers against exact Fraction / Gaussian-rational arithmetic with an own round-to-nearest-even (correct rounding at the maximum operand precision)",
+        text="eval_mpfr (all rounding modes), eval_mpc and evalf above 53 bits must be within 64*2^-bits times the error amplification of the reference and carry the requested precision; add/sub/mul/div/pow on two arbitrary-precision operands must be the correctly rounded exact result per component, mixed exact/double operands within 1 ulp plus the conversion effect. Exploration.",
+        note="Runs in the opt build; the MPC half depends on the header shim, whose declarations are validated by the repository's own MPC tests and by last-bit comparison with Python.",
+        variants=["opt"]),
+    "C34": dict(
+        engine="hy", technique="property-based testing: witness-first assumption sets (a value of a known class is chosen per symbol, then statements true of it), all 17 tribool queries with and without assumptions, soundness oracle evaluated exactly in Q(i) or with mpmath at satisfying assignments; syntactic reference for is_polynomial",
+        text="Whenever a query returns a definite answer, every sampled satisfying assignment must give the expression that property (decided exactly where the value lies in Q(i), numerically with a 1e-20 margin otherwise; irrational/algebraic/transcendental only from classes known by construction); indeterminate is always accepted. Exploration.",
+        note="KF-C34-02 (is_real(I*x) false although x = 0 is allowed, pinned by the suite) is a listed known finding.",
+        variants=["main"]),
+    "C35": dict(
+        engine="hy", technique="property-based testing: generated expressions with abs/sign/floor/ceiling/conjugate/max/min, nested powers, logs and reciprocal trig under witness-first assumption sets; metamorphic value oracle refine(e, A) == e == simplify(e, A) at satisfying assignments (and without assumptions at unconstrained complex points)",
+        text="refine and simplify, with and without assumptions, must return a tree whose value equals the value of e at every sampled assignment satisfying the assumptions (exactly at integer points of discontinuous functions, numerically 1e-6 away from jumps otherwise). Exploration.",
+        note="KF-C35-03 ((x**-1)**b -> x**(-b) through pow(), same family as KF-C16-02) is a listed known finding.",
+        variants=["main"]),
 }
 
 NOT_APPLICABLE = {}
